@@ -12,7 +12,7 @@
    [serve_allowed r m p] the responses ServeHTTP may give depending on the order in
    which Go iterates its maps, [serve r m p] the first of them. *)
 From Coq Require Import List String Ascii Bool ZArith.
-From GZ Require Import C09.Model C09.Spec C09.Proofs C09.ServerModel C09.ServerProofs C09.Check C09.SpecProofs C09.History C09.CleanProofs.
+From GZ Require Import C09.Model C09.Spec C09.Proofs C09.ServerModel C09.ServerProofs C09.Check C09.SpecProofs C09.History C09.CleanProofs C09.OptionProofs.
 Import ListNotations.
 Open Scope string_scope.
 
@@ -609,3 +609,42 @@ Example ex_cleaning :
   serve r "GET" "/users/7/.." = RNotFound /\
   snd (handle r "GET" "/users/:id" 9%Z) = RegDuplicate.
 Proof. vm_compute. repeat split. Qed.
+
+(* ====================================================================== round 4: route binding (rest/engine.go)
+   engine.bindRoutes is a sequence of router.Handle calls: every route of the engine's groups in order, up to and
+   including the first one the router rejects ([bind_calls]).  From the plain route list alone ([spec_calls], no trie):
+   the same calls with the same results.  The executor observes them on the user's own router (rest.WithRouter). *)
+Theorem route_binding_calls : forall nf na regs, bind_calls (new_router nf na) regs = spec_calls [] regs.
+Proof. exact L_bind_calls_are_spec. Qed.
+Print Assumptions route_binding_calls.
+
+(* ... and the list is the union, in order, of the prefix-extended tables mounted before Start, as written *)
+Theorem start_binds_the_union_in_order : forall tables cfgs evs i,
+  bound_regs tables cfgs evs i = spec_regs tables (before_start i evs) i.
+Proof. exact L_bound_regs_spec. Qed.
+Print Assumptions start_binds_the_union_in_order.
+
+(* Route options other than WithPrefix (timeout, max-bytes, priority, SSE, JWT, JWT transition, signature) and the choice
+   AddRoute / AddRoutes do not take part in which routes a server binds: dropping them all ([plain_event]) leaves
+   the route list, how Start ends and the router it leaves unchanged — for every event sequence, at specification level
+   and in the heap model of the real registration sequence. *)
+Theorem other_options_transparent : forall cfgs tables evs s,
+  spec_regs tables (map plain_event evs) s = spec_regs tables evs s /\
+  spec_start cfgs tables (map plain_event evs) s = spec_start cfgs tables evs s.
+Proof. exact L_other_options_transparent. Qed.
+Print Assumptions other_options_transparent.
+
+Theorem other_options_transparent_run : forall cfgs tables evs s,
+  start_of (wstarts (run opt_real cfgs tables (map plain_event evs))) s =
+  start_of (wstarts (run opt_real cfgs tables evs)) s.
+Proof. exact L_other_options_transparent_run. Qed.
+Print Assumptions other_options_transparent_run.
+
+Example ex_binding :
+  let tables := [[mkReg "GET" "/users/:id" 0%Z; mkReg "POST" "/users" 1%Z]] in
+  let evs := [EMount (mkMount 0 0 0 2 true None [OOther; OPrefix "/v1"; OOther]);
+              EMount (mkMount 0 0 1 2 false None [OPrefix "/v1/"]); EStart 0] in
+  map (fun x => (rpath (fst x), snd x)) (bind_calls (new_router false false) (bound_regs tables [default_cfg] evs 0))
+  = [("/v1/users/:id", RegOk); ("/v1/users", RegOk); ("/v1/users", RegDuplicate)] /\
+  spec_regs tables (map plain_event evs) 0 = spec_regs tables evs 0.
+Proof. vm_compute. split; reflexivity. Qed.
